@@ -63,6 +63,11 @@ ACTOR_SITES = {
 }
 
 
+def _known_names():
+    from ..expand import load_known
+    return load_known()
+
+
 def _env(fn):
     return {p: Poly.atom(p, {p}, {p}) for p in param_names(fn)}
 
@@ -130,6 +135,10 @@ def run(ck, repo: Repo, tier: str):
             s = sites[0]
             got_loss = repo.resolve_expr(mi, s["loss"]) if isinstance(s["loss"], (ast.Name, ast.Attribute)) else None
             okl = got_loss == lq
+            if not okl and (got_loss is None or got_loss not in _known_names()):
+                # a new wrapper / adapter around the loss: which objective is differentiated, and with respect to what, is not read here
+                ck.incomplete.append(f"{uq}: differentiates `{short(s['loss'], 50)}`, not the documented loss function itself (unrecognised form)")
+                continue
             rule = FORMULAS.get(lq, ("R3-dpg",))[0]
             ck.ob(rule, uq, "differentiates-documented-loss", okl, f"value_and_grad({short(s['loss'])})", "" if okl else f"documented objective is {lq.rsplit('.', 1)[1]}", loc(mi, s["app"]))
             if not okl:
